@@ -1,5 +1,6 @@
 import LexgenModel.Proofs.ClassEval
 import LexgenModel.Proofs.Simplify
+import LexgenModel.Proofs.BisimSound
 /-!
 # C02 — Regex operators denote their documented languages
 
@@ -33,5 +34,14 @@ theorem C02_simplify_preserves (d : DFA Nat) (entries : List (String × Nat)) (d
     (s : Nat) (hs : s < d.length) (hk : (emptyStates d).contains s = false) (w : List Nat) :
     (reach d' (.st (newIdx d s)) w).map (Auto.acc d') = (reachN d s w).map (fun t => (d.st t).accepting) :=
   simplify_reach d entries d' entries' h hT s hs hk w
+
+/-- The per-program comparison of the model's DFA with the macro's dumped DFA is sound: when the
+product exploration `bisim` (run by `lexmodel stage` on every corpus program) succeeds, the two
+automata have equal accept lists (rule and context ids, in order) and equal end-of-input behaviour
+for EVERY word over code points `≤ char::MAX` from every compared entry — not for sampled words. -/
+theorem C02_comparison_sound {τ₁ τ₂ : Type} [Target τ₁] [Target τ₂] (a : DFA τ₁) (b : DFA τ₂) (starts : List (Nat × Nat))
+    (h : (bisim a b (fun l1 l2 => l1 == l2) starts).1.ok = true) (x y : Nat) (hxy : (x, y) ∈ starts) :
+    EquivFrom a b x y :=
+  bisim_sound a b starts h x y hxy
 
 end Lexgen
